@@ -8,6 +8,7 @@ import numpy as np
 import common as C
 import fuzzylite as fl
 import gen_engine as G
+from streams import infer as S_INFER
 
 PID = "C01"
 MODULES = ["FlVerif.Props.C01"]
@@ -23,6 +24,7 @@ RULE = ("engines generated from the registered classes (1-3 inputs, 1-2 outputs,
         "float evaluation is exact, so discontinuous norms, thresholds, ties and maxima defuzzifiers are compared too) and "
         "`general` (all shape terms, sqrt hedges, continuous norms). non-trivial: at least one rule fires with a degree "
         "strictly between 0 and 1 and one output is defuzzified to a finite value; distinct = distinct (engine, row)")
+RULE += (" Stream `infer` (fv/streams/infer.py): Engine.infer_type on engines with every defuzzifier family / term kind / order, Variable.highest_membership and fuzzify on variables with shape, constant (incl. NaN, +-inf) and raising terms, against Op/Infer.lean.")
 ASSUMPTIONS = ["numeric observables compared within 1e-9 abs + 1e-9 rel of the exact model value",
                "Bisector is exercised by C09 only (its arg-min ties are float-sensitive at engine level)",
                "Function terms are exercised by C17; Discrete terms by C03"]
@@ -241,6 +243,8 @@ def feq(a, b, tol=1e-7):
 
 def key(case):
     """F3 (known): the documented pipeline fails and the ONLY deviation is the hedge leak of Consequent.modify"""
+    if case.get("stream"):
+        return case["stream"]
     if has_leak(case["engine"]):
         ok, _ = oracle(case)
         ok_leaky, _ = oracle(case, leaky=True)
@@ -265,6 +269,8 @@ class RefAggregated(fl.Term):
 
 
 def oracle(case, leaky=False):
+    if case.get("stream"):
+        return S_INFER.oracle(case)    # Engine.infer_type, Variable.highest_membership / fuzzify
     desc, rows = case["engine"], case["rows"]
     impl = run_impl(desc, rows)
     ref = reference(desc, rows, leaky)
@@ -499,6 +505,8 @@ def correspond(ctx):
                         continue
                     seen_leak = True
                 mism.append({"case": case, "violation": True, "detail": detail, "what": detail})
+    # Engine.infer_type, Variable.highest_membership / fuzzify against Op/Infer.lean (models of the code ties)
+    mism += S_INFER.run(ctx)
     return mism
 
 
